@@ -80,3 +80,17 @@ contract(VISC, scenarios=[(f"{d}.{t}.", setup_sct(t, d)) for d in ("pos", "full"
              "test_fn_matches_config": lambda c, q: z3.BoolVal(c.self.attrs["_convergence_test_fn"].qualname.endswith("_get_span" if c.self.attrs["config"].attrs["convergence_test"] == "span" else "_get_max_diff")),
              "format_set": lambda c, q: z3.BoolVal(isinstance(c.self.attrs.get("convergence_format"), FormatSpec)),
              "CANARY_threshold_is_eps": lambda c, q: toz3(c.self.attrs["conv_threshold"]) == c.e})
+
+# ---- Solver.set_verbosity: integer 0..4 or one of the five level names (any case); anything else is rejected
+SV = "mdpax.core.solver.Solver.set_verbosity"
+def setup_sv(kind):
+    def setup(I):
+        vimod = I.load_module("mdpax.solvers.value_iteration").globals
+        s = Obj(vimod["ValueIteration"], {}, label="solver")
+        lvl = z3.Int("level") if kind == "int" else kind
+        return Ctx(self=s, _args=[lvl], lvl=lvl, kind=kind)
+    return setup
+NAMES = {"ERROR": 0, "WARNING": 1, "INFO": 2, "DEBUG": 3, "TRACE": 4}
+contract(SV, scenarios=[("int.", setup_sv("int"))] + [(f"str_{n}.", setup_sv(n)) for n in ("error", "Warning", "INFO", "debug", "TRACE", "loud")],
+    raises=[("ValueError", lambda c, q: (z3.Or(c.lvl < 0, c.lvl > 4) if c.kind == "int" else z3.BoolVal(c.kind.upper() not in NAMES)))],
+    ensures={"verbose_stored_as_0_to_4": lambda c, q: (z3.And(c.lvl >= 0, c.lvl <= 4, toz3(c.self.attrs["verbose"]) == c.lvl) if c.kind == "int" else z3.BoolVal(c.self.attrs["verbose"] == NAMES.get(c.kind.upper())))})
